@@ -328,6 +328,7 @@ func init() {
 		Explain: "Decides: (L0) RequiresIterator/IsMaterializable/IsView are the boolean functions every guard relies on; (L1) every path to a raw whole-buffer access in Memset, Zero, Copy, Materialize, ToMat64 has established that the tensor is not a view / does not require an iterator (iterator-driven variants are used otherwise); (M2/M3) in-place arithmetic through a view runs the iterator kernel paired with the view's own iterator, never a raw kernel on the iterator path; (V1) Clone, Materialize, SafeT allocate the result's storage, copy elements with a copy primitive and share no array/Header/Raw/mask with the source; (O8) and no access-pattern slices either; (S9) Slice/SliceInto build the view over the parent's window. " +
 			"Not decided: that the iterator writes land on the right elements (C05's arithmetic); native-slice conversions' element order. Round 7: (EP) refusals precede effects; IsMaterializable includes tensors that own their memory but have gaps (finding 78). Round 11: (AD) no decision on buffer start addresses in iterator-driven copies; (O13) built patterns own their slices; (NC); (MM) a view's mask is never cut to the view's element count. Round 13: (SA) no self-append is taken for a copy; (SW) Slice and SliceInto cut the same window.",
 		Run: func(rc *rules.RC) {
+			rules.ITW(rc)
 			rules.SA(rc)
 			rules.SW(rc)
 			rules.AD(rc)
@@ -711,6 +712,7 @@ func init() {
 			"Not decided: behaviour of the Go operators themselves, accuracy of math routines, and agreement of results after conversion between types (a runtime relation). Round 7: (K4) the arm for type T of one operation's dispatcher equals the arm for T of its sibling operations; (K12) dispatchers do not return successfully in front of the switch; (K3) arms serving several types use no construct specific to one of them. Round 11: (CVI) an IsInf(x, s) branch yields the infinity of sign s. Round 13: (T8) over every transpose kernel including the byte-copying one.",
 		Assume: []string{"sibling specialisations are meant to be instances of one template (the genlib2 design)", "a template-wide change that K2's operator table does not cover is not detected by sibling comparison"},
 		Run: func(rc *rules.RC) {
+			rules.ITW(rc)
 			rules.T8(rc)
 			rules.CVI(rc)
 			rules.SP(rc, "C17", 3)
